@@ -336,6 +336,8 @@ def _build(desc):
     if "shipped" in desc:
         from cobra.io import load_model
         return load_model(desc["shipped"])
+    if desc.get("how"):
+        return U.build_via(desc, desc["how"])
     return U.rebuild(desc)
 
 
@@ -354,9 +356,11 @@ def _task(task):
     """seed-dependent part"""
     kind, seed, idx, n, tier, max_cyc = task
     U.quiet()
-    rng = random.Random(seed * 1000003 + idx * 7 + {"plain": 1, "loop": 2, "corner": 3, "net": 4, "shipped": 5}[kind])
+    rng = random.Random(seed * 1000003 + idx * 7 + {"plain": 1, "loop": 2, "corner": 3, "net": 4, "shipped": 5, "finf": 6}[kind])
     if kind == "shipped":
         ms = [({"shipped": "textbook"}, [_shipped_plans(rng, idx)])]
+    elif kind == "finf":      # one-sided infinite forced bounds, set through constructor / .bounds / .lower_bound+.upper_bound
+        ms = [(U.forced_inf_model(rng), "plain") for _ in range(n)]
     elif kind == "corner":
         ms = [(m, "both") for m in corner_models()]
     elif kind == "plain":
@@ -378,6 +382,8 @@ def _task(task):
             desc, sig, plans = m, hash(m["shipped"]), what
         else:
             desc = U.describe(m)
+            if kind == "finf":
+                desc["how"] = U.HOWS[(idx + j) % 3]
             sig = hash(U.signature(m))
             plans = []
             if what in ("plain", "both"):
@@ -412,9 +418,9 @@ def _dispatch(t):
 
 
 TIERS = {
-    "quick": {"plain_chunks": 72, "plain_n": 1, "net_chunks": 24, "net_n": 1, "loop_chunks": 40, "loop_n": 2, "max_cyc": 4,
+    "quick": {"finf_chunks": 20, "finf_n": 1, "plain_chunks": 72, "plain_n": 1, "net_chunks": 24, "net_n": 1, "loop_chunks": 40, "loop_n": 2, "max_cyc": 4,
               "fixed_loopless": 108},
-    "thorough": {"plain_chunks": 256, "plain_n": 3, "net_chunks": 128, "net_n": 2, "loop_chunks": 128, "loop_n": 4, "max_cyc": 6,
+    "thorough": {"finf_chunks": 96, "finf_n": 2, "plain_chunks": 256, "plain_n": 3, "net_chunks": 128, "net_n": 2, "loop_chunks": 128, "loop_n": 4, "max_cyc": 6,
                  "shipped": 5, "fixed_loopless": 308, "fixed_shipped": True},
 }
 
@@ -429,6 +435,7 @@ def run(tier, seed):
     tasks = [("shipped", seed, i, 1, tier, cfg["max_cyc"]) for i in range(cfg.get("shipped", 0))]         # heaviest first
     tasks += [("corner", seed, 0, 0, tier, cfg["max_cyc"])]
     tasks += [("loop", seed, i, cfg["loop_n"], tier, cfg["max_cyc"]) for i in range(cfg["loop_chunks"])]
+    tasks += [("finf", seed, i, cfg["finf_n"], tier, cfg["max_cyc"]) for i in range(cfg.get("finf_chunks", 0))]
     tasks += [("plain", seed, i, cfg["plain_n"], tier, cfg["max_cyc"]) for i in range(cfg["plain_chunks"])]
     tasks += [("net", seed, i, cfg["net_n"], tier, cfg["max_cyc"]) for i in range(cfg["net_chunks"])]
     n_fixed = len(ftasks)
@@ -451,7 +458,7 @@ def run(tier, seed):
             raised[k] = raised.get(k, 0) + v
         F.merge(r["fails"])
         samples += r["samples"]
-    n_models = 8 + cfg["plain_chunks"] * cfg["plain_n"] + cfg["net_chunks"] * cfg["net_n"] + cfg["loop_chunks"] * cfg["loop_n"]
+    n_models = 8 + cfg.get("finf_chunks", 0) * cfg.get("finf_n", 0) + cfg["plain_chunks"] * cfg["plain_n"] + cfg["net_chunks"] * cfg["net_n"] + cfg["loop_chunks"] * cfg["loop_n"]
     return {
         "evaluations": tot["evals"],
         "distinct_nontrivial": sum(1 for v in sigs.values() if v),
@@ -467,7 +474,8 @@ def run(tier, seed):
                    "fixed_loopless_calls": fixed_calls, "fixed_borderline_comparisons": sorted(borderline),
                    "fractions": [0.0, 0.5, 1.0], "pfba_factors": [None, 1.0, 1.5],
                    "processes": [1, 2], "random_models": "bcc.gen.random_model (<=4 metabolites, <=5 internal reactions, full BOUNDS), "
-                   "bcc.c19_gen.structured_model (<=4 core metabolites), 8 corner models",
+                   "bcc.c19_gen.structured_model (<=4 core metabolites), 8 corner models, bcc.c04_util.forced_inf_model "
+                   "(one-sided infinite forced bounds (-inf,-5) (-inf,-1) (2,inf) (5,inf), set via constructor / .bounds / sides)",
                    "shipped_model_calls": ("textbook x %d configurations" % cfg.get("shipped", 0)),
                    "loopless_calls": tot["loopless"], "loopless_calls_compared_with_brute_force": tot["brute"],
                    "loopless_calls_without_cycle_free_point": tot["brute_empty"], "max_cycle_reactions_brute_force": cfg["max_cyc"],
